@@ -265,12 +265,12 @@ func c07R1(c *Ctx) {
 							elemRoots = append(elemRoots, rootOnPath(p, pr[0]))
 						}
 					}
-					if lastField(pr[0]) == fCmd && paramIndex(fn, pr[1]) == 1 && v {
+					if lastField(pr[0]) == fCmd && paramIndex(fn, p.Resolve(pr[1], len(p.Blocks)-1)) == 1 && v {
 						cmdEq = true
 						elemRoots = append(elemRoots, rootOnPath(p, pr[0]))
 					}
 				}
-			case k.op == token.ILLEGAL && paramIndex(fn, k.x) == 2:
+			case k.op == token.ILLEGAL && paramIndex(fn, p.Resolve(k.x, len(p.Blocks)-1)) == 2:
 				shellParam, shellKnown = v, true
 			}
 		}
@@ -679,7 +679,7 @@ func c07R3(c *Ctx) {
 		for _, pc := range callsOnPath(p) {
 			if calleeID(pc.call) == rmKey {
 				args := callArgs(&pc.call.Call)
-				if len(args) == 2 && paramIndex(fn, args[1]) == 2 {
+				if len(args) == 2 && paramIndex(fn, p.Resolve(args[1], pc.at)) == 2 {
 					removed = true
 				}
 			}
